@@ -367,6 +367,20 @@ def build(rng, P, rep, table_mode=False):
             else:
                 # ... the argument derived from the receiver, so that one bad input breaks both
                 add(lambda: x.rx.count(x.rx + 'a'), lambda: x.ev().count(x.ev() + 'a'), f'{x.desc}.count({x.desc}+a)', 'num', 'method:rx-arg-own', (x,))
+        elif k < 0.7:
+            # expressions inside a container that is handed over by keyword (or by position)
+            x, y, z = rng.choice(nodes), rng.choice(nodes), rng.choice(nodes)
+            g4 = lambda v, *more, extra=(): (v, more, extra)    # noqa: E731
+            form = rng.randrange(3)
+            if form == 0:
+                add(lambda: x.rx.rx.pipe(g4, extra=[y.rx, z.rx]), lambda: (x.ev(), (), [y.ev(), z.ev()]), f'pipe({x.desc},extra=[{y.desc},{z.desc}])', 'any',
+                    'pipe:kwarg-container', (x, y, z))
+            elif form == 1:
+                add(lambda: x.rx.rx.pipe(g4, extra={'k': y.rx, 'c': (z.rx, 1)}), lambda: (x.ev(), (), {'k': y.ev(), 'c': (z.ev(), 1)}),
+                    f'pipe({x.desc},extra={{k:{y.desc},c:({z.desc},1)}})', 'any', 'pipe:kwarg-container', (x, y, z))
+            else:
+                add(lambda: x.rx.rx.pipe(g4, [y.rx, z.rx]), lambda: (x.ev(), ([y.ev(), z.ev()],), ()), f'pipe({x.desc},[{y.desc},{z.desc}])', 'any',
+                    'pipe:arg-container', (x, y, z))
         elif k < 0.76:
             x, y, z = rng.choice(of('bool') + of('num')), rng.choice(nodes), rng.choice(nodes)
             if rng.random() < 0.5:
